@@ -29,9 +29,10 @@ CFG = {'assumptions': ['f64 inputs cross the boundary as bit patterns and are de
                   '16*2^-53*(max|coordinate| + longest segment) for densified points; original vertices must be '
                   'copied bit-exactly; no densified piece longer than max*(1+4*2^-53) plus that tolerance',
                   'piece-count near-ties (d/max above an integer by <= 2^-53 relative when the f64 length is exact, '
-                  'within 2^-49 relative of an integer otherwise) are skipped and counted; the locate comparison is '
-                  'not made where two candidate segments within rounding distance give different fractions '
-                  '(tag loc-ambiguous)',
+                  'within 2^-49 relative of an integer otherwise; tag ceil-near-tie) are not skipped: the '
+                  "implementation's count must be one of the two admissible ceilings and its points the lerp points "
+                  'k/m for that count; the locate comparison is not made where two candidate segments within '
+                  'rounding distance give different fractions (tag loc-ambiguous)',
                   'the locate round trip is demanded only where the line passes through the interpolated point at a '
                   'single arc length (tag multi-preimage otherwise), which is what "simple line" means at that point']}
 
@@ -46,7 +47,7 @@ MANIFEST = {'note': 'Trusted: Lean 4.33 kernel (axioms propext, Classical.choice
          'LineString::line_interpolate_point returned None on repeated leading vertices / zero-length / '
          'single-coordinate line strings and was repaired by a fix: commit (known finding F11, fixed). f64 results '
          'are compared bit-exactly where the evaluation is provably unrounded and within a stated tolerance '
-         'elsewhere; piece-count rounding near-ties are skipped and counted.',
+         'elsewhere; in piece-count rounding near-ties either admissible ceiling is accepted.',
  'technique': 'Lean 4 proof (induction over the segment list, arc-length uniqueness on a chain of segments, field '
               'arithmetic over Rat) + model/implementation correspondence on random paths with exact rational lengths',
  'text': 'Proved for the model, for every line string (repeated vertices, zero-length segments, empty, single '
